@@ -2,7 +2,7 @@
 (* What a Container hands to an analysis for one trace: the samples at the frame positions, THEN the preprocess    *)
 (* chain applied to that selection, in order (C02: "update receives chain(samples[ids][:, frame])").              *)
 (* Cases (JSON): [rows |-> integer sample rows, frame |-> 0-based positions in the order given, chain |-> names].  *)
-(* Preprocesses modelled: plus1, twice, square (sample-wise) and cumsum (every output mixes the samples to its     *)
+(* Preprocesses modelled: plus1, minus1, twice, square (sample-wise) and cumsum (every output mixes the samples to its     *)
 (* left - the order of frame selection and chain matters).                                                        *)
 (* Late == the plausible wrong mechanism "read the contiguous block, run the chain, decimate afterwards"; TLC must *)
 (* find a case where it differs (sensitivity), and must find none among the sample-wise chains (lemma).            *)
@@ -18,6 +18,7 @@ Select(row, frame) == [i \in 1..Len(frame) |-> row[frame[i] + 1]]
 Apply(name, row) == CASE name = "plus1" -> [i \in 1..Len(row) |-> row[i] + 1]
                       [] name = "twice" -> [i \in 1..Len(row) |-> 2 * row[i]]
                       [] name = "square" -> [i \in 1..Len(row) |-> row[i] * row[i]]
+                      [] name = "minus1" -> [i \in 1..Len(row) |-> row[i] - 1]
                       [] name = "cumsum" -> [i \in 1..Len(row) |-> SumTo(LAMBDA j : row[j], i)]
 Chain(names, row) == LET f[k \in 0..Len(names)] == IF k = 0 THEN row ELSE Apply(names[k], f[k - 1]) IN f[Len(names)]
 Fed(row) == Chain(C.chain, Select(row, C.frame))
